@@ -180,7 +180,7 @@ PROPS["C04"] = {
     "technique": "history-based property testing under a virtual clock (testing/synctest): generated query/sleep/purge/late-prefetch histories against the real default chain; every record a client sees is traced (by a per-fetch stamp in its RDATA) to the upstream fetch it came from and judged by a reference lifetime model",
     "level_text": ("Histories of queries (decoded or wire-born, UDP/TCP, CD/DO/ECS/case variants), sleeps from 1 s to beyond 24 h, purges and scripted late-background-refresh orderings run against the real default chain with prefetch on/off and ECS caching on/off. "
                    "The upstream stamps each record with the fetch that produced it and, like a resolver, reports a generated delegation lease; a reference model (min of record TTLs floored at 5 s and capped at 24 h, RRSIG expiry, SOA minimum, ECS cap, lease overriding the floor) gives each fetch an upper-bound lifetime. "
-                   "Every cached record a client sees must be inside that lifetime, show a TTL no larger than what remains, never grow between hits on the same stored data, and a refresh that completed after newer client-path data was stored must not be what later lookups return. Exploration."),
+                   "Every cached record a client sees must be inside that lifetime, show a TTL no larger than what remains, never grow between hits on the same stored data, and a refresh that completed after newer client-path data was stored must not be what later lookups return. Unit 'world' repeats the lifetime oracle on the complete stack (real resolver, signed zones with generated TTLs and negative TTLs, NSEC or NSEC3): the in-memory authorities log every record they send with time and TTL, and every record of every client reply must be young enough against that log (TTL <= sent TTL - age), while a negative answer composed from cached pieces - RFC 8198 synthesis included - must not carry a TTL above its shortest piece's remaining life. Exploration."),
     "level_note": "Trusted: the reference lifetime model (an upper bound: sdns may expire earlier). Denial-proof and subtree-cut lifetimes are covered by C02's cache unit; DNS64 composition lifetimes are not exercised here.",
     "rule": ("evaluations = histories. Non-trivial = a cached record judged in the second half of its life or within 3 s of its end, an alias reply composed from cache, or a late refresh ordered after newer data; distinct = hash(classes, step shapes)."),
     "units": {
@@ -250,7 +250,7 @@ PROPS["C19"] = {
     "level_text": ("Unit 'policy': generated policies (ceilings, floors, networks, invalid values), client addresses and client-sent subnet options (all families, masks 0-128 and beyond, host bits set) are run through internal/ecs; the forwarded option must equal the net/netip reference (client-stated or transport-derived source, truncated to the ceiling, host bits zeroed) or be absent, and the stored scope must equal min(authority scope, source bits, floor) with family caps. "
                    "Unit 'audience': histories of 2-10 queries and sleeps on the real default chain under a virtual clock, over generated policies (enabled/disabled, invalid CIDR lists, ceilings, floors, scoped-TTL limit, prefetch threshold), clients inside and outside the permitted networks, hand-encoded client ECS options (malformed ones included) next to cookie/NSID/padding/keepalive/local options, wire-born and decoded ingress. "
                    "The upstream stub records every option that reaches it and stamps its answer with the call index; the oracle requires (1) no client-supplied option other than ECS upstream, no ECS when forwarding is not permitted, and the reference subnet when it is, (2) no ECS in any client reply, (3) a cached answer that was fetched for a scoped audience is served only to clients whose forwarded subnet lies inside that scope, only within the scoped TTL limit, and never together with background upstream work. Exploration."),
-    "level_note": "Trusted: net/netip prefix arithmetic and the reference reading of the policy (docs in internal/ecs, config comments). The authority's scope is scripted per name; answers synthesised from RFC 8198 denial proofs are outside this harness's upstream stub (it cannot mark validated denials), so the 'no shared denial state for ECS queries' clause is only exercised through C02's cache unit.",
+    "level_note": "Trusted: net/netip prefix arithmetic and the reference reading of the policy (docs in internal/ecs, config comments). The authority's scope is scripted per name; The 'no shared denial state for ECS queries' clause is decided by unit 'denial-state' (the resolver-world lifetime / provenance test): every NSEC/NSEC3 an authority sends is logged with the client question being resolved, and a synthesised denial may not rest on a record that was only ever fetched for questions carrying a client subnet option (valid, or one of the shapes the policy refuses: IPv4-mapped, over-long, host bits set, family 0).",
     "rule": ("evaluations = policy cases / histories. Non-trivial = forwarding was permitted for at least one step or a scoped entry was hit from cache; distinct = hash(policy, step shapes)."),
     "units": {
         "denial-state": {"pkg": "./server", "run": "^TestVerifC04World$", "tiers": {"quick": T(1200, 8, timeout=900), "thorough": T(40000, 12, timeout=3400)}},
@@ -270,7 +270,7 @@ PROPS["C02"] = {
                    "Each case hands a generated subset, rotation and pollution of those chains (records of sibling/ancestor zones incl. escaped-dot look-alikes, a second chain with other NSEC3 parameters, another class, a child zone's records), after the same FilterRRsToZone step Resolver.authority applies, to VerifyNameErrorNSEC, VerifyNODATANSEC, VerifyDelegationNSEC, EvaluateAggressiveNSEC(+Prepared), VerifyNameErrorForZoneWithWork, VerifyNODATAForZoneWithWork, VerifyDelegationForZoneWithWork and EvaluateAggressiveNSEC3 for a generated question aimed at owners, ENTs, names below cuts/DNAMEs, wildcard-covered and absent names. "
                    "Whenever one of them accepts, the zone must agree: NXDOMAIN only for names that do not exist and are not wildcard-matched, NODATA only where the type (and CNAME) is absent and the name is not below a cut or DNAME, 'insecure delegation' only for a delegation without DS; secure=true and every RFC 8198 synthesis is judged strictly, secure=false may lean on an opt-out span only where the signed part of the zone proves nothing to the contrary; mixed NSEC3 parameter/class sets must be refused; RFC 8198 synthesis must not cover the next-closer or wildcard name with an opt-out span. "
                    "Unit 'order' checks CanonicalCompare, nsecCovers and NameInZone against references written from RFC 4034 §6.1. Exploration."),
-    "level_note": "Trusted: the zone model (vfmodel) as ground truth and miekg/dns NSEC3 hashing. Records are unsigned at this level - the signature/signer binding that precedes the verifiers is C01/C14 territory, which is why in-zone forged records are not generated. The resolver-level clauses (RFC 8020 stop, SERVFAIL vs fabricated denial on incomplete proofs) and admission/expiry orders of the denial-proof and cut caches are not decided by these units. NSEC3 hash collisions are not generated.",
+    "level_note": "Trusted: the zone model (vfmodel) as ground truth and miekg/dns NSEC3 hashing. Records are unsigned at this level - the signature/signer binding that precedes the verifiers is C01/C14 territory, which is why in-zone forged records are not generated. Unit 'synthesis' (the resolver-world lifetime / provenance test, shared with C04 and C19) covers the cache side: on the real stack with real signatures, every negative answer composed from cache - exact entries and RFC 8198 syntheses from proofs admitted at different times - must carry the zone's true rcode, records no authority ever sent may not appear, no record may outlive its TTL and the whole answer not its shortest piece. Incomplete or tampered proofs ending in SERVFAIL rather than a denial is C01's oracle. Admission orders of the subtree-cut cache are exercised only as far as these histories reach them. NSEC3 hash collisions are not generated.",
     "rule": ("evaluations = (zone, record set, question) cases, each put to every verifier. Non-trivial = some verifier accepted, or the record set was a strict subset or polluted; distinct = hash(truth class, qtype, chain size, records given, accepted, polluted/mixed, parameters)."),
     "units": {
         "synthesis": {"pkg": "./server", "run": "^TestVerifC04World$", "tiers": {"quick": T(1200, 8, timeout=900), "thorough": T(40000, 12, timeout=3400)}},
